@@ -83,7 +83,9 @@ void clearNamespace(const xmlNodePtr &node, xmlNsPtr ns)
         }
         attr = attr->next;
     }
-    if (node->children != nullptr) {
+    // Note: the "children" of an entity reference is the declaration of the
+    //       entity, which is not a node of the document tree.
+    if ((node->type != XML_ENTITY_REF_NODE) && (node->children != nullptr)) {
         clearNamespace(node->children, ns);
     }
     if (node->next != nullptr) {
